@@ -326,3 +326,18 @@ def simplify(run):
             r = json.loads(json.dumps(run))
             r['ops'][oi]['use'] = []
             yield r
+
+
+def vary(run, rng):
+    ops = run['ops']
+    wp = run['swarm']['wp']
+    if not ops or rng.random() < 0.3:
+        return
+    for _ in range(rng.randint(1, 3)):
+        k = rng.randrange(len(ops))
+        o = json.loads(json.dumps(ops[k]))
+        if o['op'] == 'psth':
+            o['trains'] = [gen.gen_spikes(rng, wp, nmax=12) for _t in o['trains']]
+        elif o['op'] == 'poisson':
+            o['dseed'] = rng.randrange(1 << 30)
+        ops.insert(rng.randint(k + 1, len(ops)), o)
